@@ -9,6 +9,9 @@ Open Scope Z_scope.
 
 Definition hcode := (Z * nat)%type.       (* value, number of bits *)
 
+(** the compressor's table: (code, number of bits) per symbol *)
+Definition code_fn (codes : list (Z * Z)) (s : Z) : hcode := (fst (nth (Z.to_nat s) codes (0, 0)), Z.to_nat (snd (nth (Z.to_nat s) codes (0, 0)))).
+
 Definition quarter (n : nat) : nat := ((n + 3) / 4)%nat.
 Definition split4 (lits : list Z) : list Z * list Z * list Z * list Z :=
   let s := quarter (length lits) in
